@@ -5,10 +5,18 @@
    lp 1 = low-pass variant, skip = byte offset of the first sampled channel byte, bps = bytes per
    sample, wide 1 = the channel straddles both bytes of a 16 bit pixel, scan = number of scan steps,
    phase_shift / step in 1/256 samples, payload in bits (endian >= 2) or octets, spl = samples per
-   line, soff = samples skipped at the line start, id = index in the check's list.         *)
+   line, soff = samples skipped at the line start, id = index in the check's list,
+   scan = search limit as a SIGNED number (cri_samples / cri_bytes), ok 0 = vbi3_bit_slicer_set_params
+   refused the parameters (the other fields are then meaningless).  Records 4-6: Teletext B in a line
+   of 100 samples - refused by the new interface, a search of 0 steps in the legacy slicer - and what
+   the legacy slicer would hold without its clamp to zero (-256: LineBound is violated).       *)
+EXTENDS Integers
 CfgList == <<
-  [id |-> 1, lp |-> 1, skip |-> 0, bps |-> 1, wide |-> 0, scan |-> 579, phase_shift |-> 10424, step |-> 13728, frc_bits |-> 0, payload |-> 2, endian |-> 1, spl |-> 1440, soff |-> 0],
-  [id |-> 2, lp |-> 0, skip |-> 0, bps |-> 1, wide |-> 0, scan |-> 54, phase_shift |-> 626, step |-> 498, frc_bits |-> 6, payload |-> 42, endian |-> 1, spl |-> 720, soff |-> 0],
-  [id |-> 3, lp |-> 0, skip |-> 2, bps |-> 4, wide |-> 0, scan |-> 54, phase_shift |-> 626, step |-> 498, frc_bits |-> 6, payload |-> 42, endian |-> 1, spl |-> 720, soff |-> 0]
+  [id |-> 1, lp |-> 1, skip |-> 0, bps |-> 1, wide |-> 0, scan |-> 579, phase_shift |-> 10424, step |-> 13728, frc_bits |-> 0, payload |-> 2, endian |-> 1, spl |-> 1440, soff |-> 0, ok |-> 1],
+  [id |-> 2, lp |-> 0, skip |-> 0, bps |-> 1, wide |-> 0, scan |-> 54, phase_shift |-> 626, step |-> 498, frc_bits |-> 6, payload |-> 42, endian |-> 1, spl |-> 720, soff |-> 0, ok |-> 1],
+  [id |-> 3, lp |-> 0, skip |-> 2, bps |-> 4, wide |-> 0, scan |-> 54, phase_shift |-> 626, step |-> 498, frc_bits |-> 6, payload |-> 42, endian |-> 1, spl |-> 720, soff |-> 0, ok |-> 1],
+  [id |-> 4, lp |-> 0, skip |-> 0, bps |-> 1, wide |-> 0, scan |-> 0, phase_shift |-> 0, step |-> 0, frc_bits |-> 0, payload |-> 0, endian |-> 0, spl |-> 100, soff |-> 0, ok |-> 0],
+  [id |-> 5, lp |-> 0, skip |-> 0, bps |-> 1, wide |-> 0, scan |-> 0, phase_shift |-> 626, step |-> 498, frc_bits |-> 6, payload |-> 42, endian |-> 1, spl |-> 100, soff |-> 0, ok |-> 1]
 >>
+\* [id |-> 6, lp |-> 0, skip |-> 0, bps |-> 1, wide |-> 0, scan |-> -256, phase_shift |-> 626, step |-> 498, frc_bits |-> 6, payload |-> 42, endian |-> 1, spl |-> 100, soff |-> 0, ok |-> 1]
 =============================================================================
